@@ -1,7 +1,6 @@
 #!/usr/bin/env python3
 """seedeval.py <seeded-dir> [--props C01,C05] [--tier quick]
-Applies /verif/seeded/<id>/patch.diff to /repo, runs the named checks (default: the property in meta.json),
-restores /repo, and records in meta.json which checks reported a VIOLATION."""
+Applies /verif/seeded/<id>/patch.diff to a scratch worktree of /repo, runs the named checks against it (VERIF_REPO) and records in meta.json which checks reported a VIOLATION."""
 import json, os, subprocess, sys, re
 d = os.path.abspath(sys.argv[1])
 meta = json.load(open(os.path.join(d, "meta.json")))
@@ -11,21 +10,24 @@ if "--props" in sys.argv:
     props = sys.argv[sys.argv.index("--props") + 1].split(",")
 if "--tier" in sys.argv:
     tier = sys.argv[sys.argv.index("--tier") + 1]
-assert subprocess.run(["git", "-C", "/repo", "status", "--porcelain", "--untracked-files=no"], capture_output=True, text=True).stdout.strip() == "", "/repo not clean"
-r = subprocess.run(["git", "-C", "/repo", "apply", os.path.join(d, "patch.diff")], capture_output=True, text=True)
-if r.returncode != 0:
-    print("patch does not apply:", r.stderr)
-    sys.exit(2)
+# the change is applied to a scratch worktree, never to /repo itself; the checks are pointed at it through VERIF_REPO
+import tempfile
+wt = tempfile.mkdtemp(prefix="seedeval-", dir="/tmp")
+os.rmdir(wt)
+subprocess.run(["git", "-C", "/repo", "worktree", "add", "-q", "--detach", wt, "HEAD"], check=True)
 results = meta.setdefault("checks", {})
 try:
+    r = subprocess.run(["git", "-C", wt, "apply", os.path.join(d, "patch.diff")], capture_output=True, text=True)
+    if r.returncode != 0:
+        print("patch does not apply:", r.stderr)
+        sys.exit(2)
     for p in props:
-        out = subprocess.run([os.path.join("/verif", "check"), p, tier], capture_output=True, text=True, cwd="/verif")
+        out = subprocess.run([os.path.join("/verif", "check"), p, tier], capture_output=True, text=True, cwd="/verif", env=dict(os.environ, VERIF_REPO=wt))
         viol = [l for l in out.stdout.splitlines() if l.startswith("VIOLATION")]
         sigs = [l.strip() for l in out.stdout.splitlines() if l.strip().startswith("signature:")]
         results["%s/%s" % (p, tier)] = {"exit": out.returncode, "violations": len(viol), "signatures": sigs[:6],
                                         "inconclusive": [l for l in out.stdout.splitlines() if l.startswith("INCONCLUSIVE")][:3]}
         print(p, tier, "exit", out.returncode, "violations", len(viol), sigs[:3])
 finally:
-    subprocess.run(["git", "-C", "/repo", "checkout", "--", "."])
-    subprocess.run(["git", "-C", "/repo", "clean", "-fdq", "--", "."], capture_output=True)
+    subprocess.run(["git", "-C", "/repo", "worktree", "remove", "--force", wt])
 json.dump(meta, open(os.path.join(d, "meta.json"), "w"), indent=1)
